@@ -189,3 +189,107 @@ func extractBuilders(w *strings.Builder) error {
 	fmt.Fprintln(w, "end J5V.Generated.Builders")
 	return nil
 }
+
+// importmap -> lean/J5V/Generated/ImportmapFacts.lean
+//   importLoop : the statements of the `for … range file.Imports` loop of j5Imports (j5convert/imports.go), in order:
+//     "if <cond> { lets … ; writes out[k1],out[k2] ; <continue|return|-> }"   an if without else; the keys of `out[...] = …`
+//                                                                     assignments inside, and how the block ends
+//     "write out[<key>]"                                             a top-level write to the import map
+//     "let <lhs> := <rhs>"                                            any other short declaration / assignment
+//     "unknown:<source>"                                              anything else
+//   The model (lean/J5V/Compile/Imports.lean `j5ImportsGo`) has exactly three arms — file path (one entry under the
+//   package of the directory), alias (one entry), package (two entries: last-but-one segment and full name) —
+//   and "last write wins" (`mapGet`).
+
+func init() {
+	extractors["importmap"] = extractImportMap
+}
+
+func outWrites(fset *token.FileSet, b *ast.BlockStmt) []string {
+	var keys []string
+	ast.Inspect(b, func(n ast.Node) bool {
+		if as, ok := n.(*ast.AssignStmt); ok {
+			for _, l := range as.Lhs {
+				if ix, ok := l.(*ast.IndexExpr); ok && exprString(ix.X) == "out" {
+					keys = append(keys, "out["+nodeSrc(fset, ix.Index)+"]")
+				}
+			}
+		}
+		return true
+	})
+	return keys
+}
+
+func extractImportMap(w *strings.Builder) error {
+	fmt.Fprintln(w, "namespace J5V.Generated.Importmap")
+	rel := "internal/j5s/j5convert/imports.go"
+	fset, f, err := parseFile(rel)
+	if err != nil {
+		return err
+	}
+	rows := []string{"unknown:j5Imports loop not found"}
+	for _, d := range f.Decls {
+		fd, ok := d.(*ast.FuncDecl)
+		if !ok || fd.Body == nil || funcName(fd) != "j5Imports" {
+			continue
+		}
+		for _, s := range fd.Body.List {
+			rs, ok := s.(*ast.RangeStmt)
+			if !ok || exprString(rs.X) != "file.Imports" {
+				continue
+			}
+			rows = nil
+			for _, st := range rs.Body.List {
+				switch x := st.(type) {
+				case *ast.IfStmt:
+					if x.Else != nil || x.Init != nil {
+						rows = append(rows, "unknown:"+nodeSrc(fset, x))
+						continue
+					}
+					end := "-"
+					if n := len(x.Body.List); n > 0 {
+						switch l := x.Body.List[n-1].(type) {
+						case *ast.BranchStmt:
+							end = l.Tok.String()
+						case *ast.ReturnStmt:
+							end = "return"
+						}
+					}
+					var lets []string
+					for _, bs := range x.Body.List {
+						if as, ok := bs.(*ast.AssignStmt); ok && as.Tok == token.DEFINE && len(as.Lhs) == 1 {
+							lets = append(lets, nodeSrc(fset, as.Lhs[0])+" := "+nodeSrc(fset, as.Rhs[0]))
+						}
+					}
+					rows = append(rows, fmt.Sprintf("if %s { lets %s ; writes %s ; %s }", nodeSrc(fset, x.Cond), strings.Join(lets, ","), strings.Join(outWrites(fset, x.Body), ","), end))
+				case *ast.AssignStmt:
+					if len(x.Lhs) == 1 {
+						if ix, ok := x.Lhs[0].(*ast.IndexExpr); ok && exprString(ix.X) == "out" {
+							rows = append(rows, "write out["+nodeSrc(fset, ix.Index)+"]")
+							continue
+						}
+					}
+					rhs := nodeSrc(fset, x.Rhs[0])
+					if len(rhs) > 60 {
+						rhs = rhs[:60] + "…"
+					}
+					rows = append(rows, "let "+nodeSrc(fset, x.Lhs[0])+" := "+rhs)
+				case *ast.DeclStmt:
+					rows = append(rows, "let "+nodeSrc(fset, x))
+				default:
+					rows = append(rows, "unknown:"+nodeSrc(fset, st))
+				}
+			}
+		}
+	}
+	fmt.Fprintf(w, "/-- the statements of the import loop of `j5Imports` (j5convert/imports.go), in order -/\n")
+	fmt.Fprintf(w, "def importLoop : List String := [\n  %s]\n", strings.Join(func() []string {
+		q := make([]string, len(rows))
+		for i, r := range rows {
+			q[i] = leanStr(r)
+		}
+		return q
+	}(), ",\n  "))
+	fmt.Fprintln(w, "end J5V.Generated.Importmap")
+	return nil
+}
